@@ -11,7 +11,7 @@ tokens (tuples):
   ('br', neg, items)            bracket expression; items: ('ch', c) | ('ech', c) escaped | ('rng', a, b) | ('posix', name)
   ('ext', kind, alts)           extended group kind in '?*+@!'; alts: tuple of token tuples
 path-level elements (only in path patterns, between segments):
-  ('sep',)                      a written separator (rendered '/'; a run renders as several)
+  ('sep',) / ('sep', 'esc')     a written separator (rendered '/' or, escaped, '\\/'; a run renders as several)
   ('gs',) ('gsl',)              a whole segment `**` / `***`
 A path pattern is a tuple of elements; a segment is a maximal run of non-sep elements.
 """
@@ -59,7 +59,7 @@ def render(tokens):
         elif k == 'ext':
             out.append(t[1] + '(' + '|'.join(render(a) for a in t[2]) + ')')
         elif k == 'sep':
-            out.append('/')
+            out.append('\\/' if len(t) > 1 and t[1] == 'esc' else '/')          # ('sep', 'esc'): the separator written as an escaped slash
         elif k == 'gs':
             out.append('**')
         elif k == 'gsl':
